@@ -269,10 +269,23 @@ func mutate(t *rapid.T, m *Msg, witness uint64) {
 			sdf = append(sdf, n)
 		}
 	}
-	k := rapid.SampledFrom([]string{"sdf-text", "sdf-text", "sdf-text", "id-value", "id-value", "id-value", "id-value", "deep-field", "deep-field", "deep-field", "deep-field", "deep-trunc", "deep-trunc", "hdr-flags", "hdr-len", "hdr-type", "hdr-seid", "hdr-seq", "ie-type", "ie-len-delta", "ie-len-set", "ie-trunc", "ie-extend",
+	var grouped []*Node
+	for _, n := range nodes {
+		if n.Grouped && len(n.Kids) > 0 {
+			grouped = append(grouped, n)
+		}
+	}
+	k := rapid.SampledFrom([]string{"kid-del", "kid-del", "kid-del", "sdf-text", "sdf-text", "sdf-text", "id-value", "id-value", "id-value", "id-value", "deep-field", "deep-field", "deep-field", "deep-field", "deep-trunc", "deep-trunc", "hdr-flags", "hdr-len", "hdr-type", "hdr-seid", "hdr-seq", "ie-type", "ie-len-delta", "ie-len-set", "ie-trunc", "ie-extend",
 		"ie-pattern", "ie-flipbit", "ie-dup", "ie-del", "ie-swap", "ie-nest", "ie-empty", "trunc", "ie-type", "ie-len-delta", "ie-pattern", "ie-flipbit"}).Draw(t, "mut")
 	m.Muts = append(m.Muts, k)
 	switch k {
+	case "kid-del":
+		// an otherwise well-formed grouped IE (at any depth) lacking one of its children: conditional and mandatory IEs absent
+		if len(grouped) > 0 {
+			n := grouped[rapid.IntRange(0, len(grouped)-1).Draw(t, "grouped")]
+			j := rapid.IntRange(0, len(n.Kids)-1).Draw(t, "kid")
+			n.Kids = append(n.Kids[:j:j], n.Kids[j+1:]...)
+		}
 	case "sdf-text":
 		// a well-formed SDF Filter IE whose flow description is a valid rule or a near miss of one (token dropped,
 		// text cut after any token, broken ports / addresses ...): reaches the driver's flow-description parser
@@ -436,6 +449,7 @@ type result struct {
 }
 
 func run(c Case) (res result) {
+	vcore.Journal(c)
 	var f *fullstack.Full
 	var st *stack.Stack
 	var err error
